@@ -309,4 +309,212 @@ theorem Inv.delItem_err {s : St} {h : Term} {ps : List Cell} (inv : Inv s h ps) 
     rw [List.getElem?_eq_none hlt] at this
     simp only [this]
 
+/-! ### `append` -/
+
+theorem nil_or_snoc (ps : List Cell) : ps = [] ∨ ∃ pre e x, ps = pre ++ [(e, x)] := by
+  rcases List.eq_nil_or_concat ps with h | ⟨l, ⟨e, x⟩, h⟩
+  · exact Or.inl h
+  · exact Or.inr ⟨l, e, x, by rw [h, List.concat_eq_append]⟩
+
+theorem cells_last_ne_nil {g : Graph} {tl : Option Term} {pre : List Cell} {e x : Term}
+    (hc : Cells g tl (pre ++ [(e, x)])) : e ≠ NIL := (cells_append.mp hc).2.1
+
+theorem Inv.append {s : St} {h : Term} {ps : List Cell} (inv : Inv s h ps) (item : Term) :
+    ∃ s' ps', append s h item = .ok s' ∧ ps'.map Prod.snd = ps.map Prod.snd ++ [item] ∧ Inv s' h ps' := by
+  rcases nil_or_snoc ps with hps | ⟨pre, e, x, hps⟩
+  · subst hps
+    have hend := inv.chain.endOf_nil
+    have hno : hasSP s.g h FIRST = false :=
+      hasSP_false_iff.mpr (fun _ => inv.chain.empty_no_triple (Or.inl rfl))
+    refine ⟨⟨add (add s.g (h, FIRST, item)) (h, REST, NIL), s.fresh⟩, [(h, item)], ?_, by simp, ?_, ?_, ?_⟩
+    · simp [RV.C19.append, hend, inv.chain.hne, hno]
+    · apply chain_first inv.chain
+      intro t
+      simp only [mem_add, Option.some.injEq, exists_eq_left']
+      constructor
+      · rintro (e | e | hm)
+        · exact Or.inr (Or.inl e)
+        · exact Or.inl e
+        · exact Or.inr (Or.inr hm)
+      · rintro (e | e | hm)
+        · exact Or.inr (Or.inl e)
+        · exact Or.inl e
+        · exact Or.inr (Or.inr hm)
+    · exact nodup_add (nodup_add inv.nodup)
+    · refine freshOK_of_subset inv.fresh (fun t ht => ?_)
+      simp only [mem_add] at ht
+      rcases ht with e | e | hm
+      · subst e; exact Or.inr inv.fresh.h_lt
+      · subst e; exact Or.inr inv.fresh.h_lt
+      · exact Or.inl hm
+  · subst hps
+    have hend := inv.chain.endOf_snoc
+    have hne : e ≠ NIL := cells_last_ne_nil inv.chain.cells
+    have hcells := cells_append.mp inv.chain.cells
+    have hyes : hasSP s.g e FIRST = true := hasSP_iff.mpr ⟨x, (hcells.2.2.1 x).2 rfl⟩
+    have he_lt : e < s.fresh := inv.cell_lt (by simp)
+    refine ⟨⟨add (add (gset s.g e REST s.fresh) (s.fresh, FIRST, item)) (s.fresh, REST, NIL), s.fresh + 1⟩,
+      pre ++ [(e, x), (s.fresh, item)], ?_, by simp, ?_, ?_, ?_, ?_, ?_⟩
+    · simp [RV.C19.append, hend, hne, hyes]
+    · apply chain_snoc inv.chain (Nat.ne_of_gt inv.fresh.nil_lt) (fun p o => inv.fresh_no_triple p o)
+        inv.fresh_not_cell
+      intro t
+      simp only [mem_add, mem_gset, Option.some.injEq, exists_eq_left']
+      constructor
+      · rintro (e1 | e1 | e1 | hm)
+        · exact Or.inr (Or.inr (Or.inl e1))
+        · exact Or.inr (Or.inl e1)
+        · exact Or.inl e1
+        · exact Or.inr (Or.inr (Or.inr hm))
+      · rintro (e1 | e1 | e1 | hm)
+        · exact Or.inr (Or.inr (Or.inl e1))
+        · exact Or.inr (Or.inl e1)
+        · exact Or.inl e1
+        · exact Or.inr (Or.inr (Or.inr hm))
+    · exact nodup_add (nodup_add (nodup_gset inv.nodup))
+    · exact Nat.lt_succ_of_lt inv.fresh.h_lt
+    · exact Nat.lt_succ_of_lt inv.fresh.nil_lt
+    · intro t ht
+      simp only [mem_add, mem_gset] at ht
+      show t.1 < s.fresh + 1
+      rcases ht with e1 | e1 | e1 | ⟨hm, _⟩
+      · subst e1; exact Nat.lt_succ_self _
+      · subst e1; exact Nat.lt_succ_self _
+      · subst e1; exact Nat.lt_succ_of_lt he_lt
+      · exact Nat.lt_succ_of_lt (inv.fresh.subj_lt t hm)
+
+/-! ### `__iadd__` -/
+
+/-- the loop invariant of `__iadd__`: an open chain whose last cell is `e` -/
+structure OInv (g : Graph) (fr : Nat) (h e : Term) (ps : List Cell) : Prop where
+  chain : Chain g h none ps
+  nodup : g.Nodup
+  fresh : FreshOK ⟨g, fr⟩ h
+  last : (ps = [] ∧ e = h) ∨ (∃ pre x, ps = pre ++ [(e, x)])
+
+theorem iaddLoop_inv {h : Term} :
+    ∀ (xs : List Term) (g : Graph) (fr : Nat) (e : Term) (ps : List Cell), OInv g fr h e ps →
+      ∃ ps', ps'.map Prod.snd = ps.map Prod.snd ++ xs ∧
+        OInv (iaddLoop g fr e xs).1 (iaddLoop g fr e xs).2.1 h (iaddLoop g fr e xs).2.2 ps' := by
+  intro xs
+  induction xs with
+  | nil =>
+    intro g fr e ps o
+    exact ⟨ps, by simp, o⟩
+  | cons x xs ih =>
+    intro g fr e ps o
+    rcases o.last with ⟨hps, he⟩ | ⟨pre, y, hps⟩
+    · subst hps
+      subst he
+      have hno : hasSP g e FIRST = false :=
+        hasSP_false_iff.mpr (fun _ => o.chain.empty_no_triple (Or.inl rfl))
+      have o1 : OInv (add g (e, FIRST, x)) fr e e [(e, x)] := by
+        refine ⟨?_, nodup_add o.nodup, ?_, Or.inr ⟨[], x, rfl⟩⟩
+        · apply chain_first o.chain
+          intro t
+          simp [mem_add]
+        · refine ⟨o.fresh.h_lt, o.fresh.nil_lt, ?_⟩
+          intro t ht
+          rcases mem_add.mp ht with e1 | hm
+          · subst e1; exact o.fresh.h_lt
+          · exact o.fresh.subj_lt t hm
+      obtain ⟨ps', h1, h2⟩ := ih _ _ _ _ o1
+      refine ⟨ps', by simpa using h1, ?_⟩
+      simp only [iaddLoop, hno]
+      exact h2
+    · subst hps
+      have hcells := cells_append.mp o.chain.cells
+      have hyes : hasSP g e FIRST = true := hasSP_iff.mpr ⟨y, (hcells.2.2.1 y).2 rfl⟩
+      have hnorest : ∀ o', (e, REST, o') ∉ g := by
+        intro o' hm
+        have := (hcells.2.2.2.1 o').1 hm
+        simp [hd] at this
+      have he_lt : e < fr := by
+        obtain ⟨t, ht, e1⟩ := List.mem_map.mp (cells_subject_mem o.chain.cells e (by simp))
+        exact e1 ▸ o.fresh.subj_lt t ht
+      have hfr_cell : fr ∉ (pre ++ [(e, y)]).map Prod.fst := by
+        intro hm
+        obtain ⟨t, ht, e1⟩ := List.mem_map.mp (cells_subject_mem o.chain.cells fr hm)
+        have := o.fresh.subj_lt t ht
+        rw [e1] at this
+        exact Nat.lt_irrefl _ this
+      have o1 : OInv (add (add g (e, REST, fr)) (fr, FIRST, x)) (fr + 1) h fr (pre ++ [(e, y), (fr, x)]) := by
+        refine ⟨?_, nodup_add (nodup_add o.nodup), ?_, Or.inr ⟨pre ++ [(e, y)], x, by simp⟩⟩
+        · apply chain_snoc o.chain (Nat.ne_of_gt o.fresh.nil_lt)
+            (fun p o' hm => Nat.lt_irrefl _ (o.fresh.subj_lt _ hm)) hfr_cell
+          intro t
+          simp only [mem_add, reduceCtorEq, false_and, exists_false, false_or]
+          constructor
+          · rintro (e1 | e1 | hm)
+            · exact Or.inr (Or.inl e1)
+            · exact Or.inl e1
+            · refine Or.inr (Or.inr ⟨hm, fun ⟨e1, e2⟩ => ?_⟩)
+              obtain ⟨s', p', o'⟩ := t
+              simp only at e1 e2
+              subst e1; subst e2
+              exact hnorest o' hm
+          · rintro (e1 | e1 | ⟨hm, _⟩)
+            · exact Or.inr (Or.inl e1)
+            · exact Or.inl e1
+            · exact Or.inr (Or.inr hm)
+        · refine ⟨Nat.lt_succ_of_lt o.fresh.h_lt, Nat.lt_succ_of_lt o.fresh.nil_lt, ?_⟩
+          intro t ht
+          show t.1 < fr + 1
+          simp only [mem_add] at ht
+          rcases ht with e1 | e1 | hm
+          · subst e1; exact Nat.lt_succ_self _
+          · subst e1; exact Nat.lt_succ_of_lt he_lt
+          · exact Nat.lt_succ_of_lt (o.fresh.subj_lt t hm)
+      obtain ⟨ps', h1, h2⟩ := ih _ _ _ _ o1
+      refine ⟨ps', by simpa using h1, ?_⟩
+      simp only [iaddLoop, hyes, if_true]
+      exact h2
+
+theorem Inv.iadd {s : St} {h : Term} {ps : List Cell} (inv : Inv s h ps) (xs : List Term) :
+    ∃ s' ps', iadd s h xs = .ok s' ∧ ps'.map Prod.snd = ps.map Prod.snd ++ xs ∧ Inv s' h ps' := by
+  -- the end cell and the opened chain
+  have hopen : ∃ e, endOf s.g h = .ok e ∧ e ≠ NIL ∧ OInv (removeSP s.g e REST) s.fresh h e ps := by
+    rcases nil_or_snoc ps with hps | ⟨pre, e, x, hps⟩
+    · subst hps
+      refine ⟨h, inv.chain.endOf_nil, inv.chain.hne, ?_, nodup_removeSP inv.nodup, ?_, Or.inl ⟨rfl, rfl⟩⟩
+      · apply chain_nil_tl (tl := some NIL)
+        apply chain_congr inv.chain
+        intro t
+        simp only [mem_removeSP, and_iff_left_iff_imp]
+        rintro hm ⟨e1, e2⟩
+        obtain ⟨s', p', o'⟩ := t
+        exact inv.chain.empty_no_triple (Or.inr e2) hm
+      · exact freshOK_of_subset inv.fresh (fun t ht => Or.inl (mem_removeSP.mp ht).1)
+    · subst hps
+      refine ⟨e, inv.chain.endOf_snoc, cells_last_ne_nil inv.chain.cells, ?_, nodup_removeSP inv.nodup, ?_,
+        Or.inr ⟨pre, x, rfl⟩⟩
+      · exact chain_open inv.chain (fun t => by simp)
+      · exact freshOK_of_subset inv.fresh (fun t ht => Or.inl (mem_removeSP.mp ht).1)
+  obtain ⟨e, hend, hne, o⟩ := hopen
+  obtain ⟨ps', h1, o'⟩ := iaddLoop_inv xs _ _ _ _ o
+  generalize hr : iaddLoop (removeSP s.g e REST) s.fresh e xs = r at o'
+  obtain ⟨g1, fr1, e1⟩ := r
+  simp only at o'
+  have hiadd : RV.C19.iadd s h xs = .ok ⟨if hasSP g1 e1 FIRST then add g1 (e1, REST, NIL) else g1, fr1⟩ := by
+    simp [RV.C19.iadd, hend, hne, hr]
+  refine ⟨_, ps', hiadd, h1, ?_⟩
+  rcases o'.last with ⟨hps, he⟩ | ⟨pre, y, hps⟩
+  · subst hps
+    subst he
+    have hno : hasSP g1 e1 FIRST = false :=
+      hasSP_false_iff.mpr (fun _ => o'.chain.empty_no_triple (Or.inl rfl))
+    simp only [hno]
+    exact ⟨chain_nil_tl o'.chain, o'.nodup, o'.fresh⟩
+  · subst hps
+    have hcells := cells_append.mp o'.chain.cells
+    have hyes : hasSP g1 e1 FIRST = true := hasSP_iff.mpr ⟨y, (hcells.2.2.1 y).2 rfl⟩
+    simp only [hyes, if_true]
+    refine ⟨chain_close o'.chain (fun t => by simp), nodup_add o'.nodup, o'.fresh.h_lt, o'.fresh.nil_lt, ?_⟩
+    intro t ht
+    rcases mem_add.mp ht with e2 | hm
+    · subst e2
+      obtain ⟨t', ht', e3⟩ := List.mem_map.mp (cells_subject_mem o'.chain.cells e1 (by simp))
+      exact e3 ▸ o'.fresh.subj_lt t' ht'
+    · exact o'.fresh.subj_lt t hm
+
 end RV.C19
